@@ -19,11 +19,40 @@ func rayOf(r []int) (geometry.Ray, float64, float64) {
 	return geometry.NewRay(v3(r[0:3]), v3(r[3:6])), float64(r[6]) / td, float64(r[7]) / td
 }
 
-// built is the real index plus the element-level primitives of every element.
+// RestAttribute is the name of the second float3 attribute of the harness.
+const RestAttribute = "Rest"
+
+// built is the real index, the exhaustive scan and the mesh-level scan.
+//
+//	tree   the index, asked from the case's mesh through the case's entry point
+//	elems  THE SCAN: the elements of the "unrolled twin" of the case - a mesh of
+//	       the same topology that stores vertex idx[k] at position k of its
+//	       Position attribute and has implied / identity indices and no other
+//	       attribute. It says what element i of the case IS (primitive i of a
+//	       mesh is made of the vertices its index buffer names, whatever the
+//	       attribute and however the vertices are stored) through the plainest
+//	       route of the library, so a fault in how the case's own route reads
+//	       its index buffer or picks its attribute shows as a disagreement.
+//	tris   the twin's triangles (ray primitive of the narrowing traversal)
+//	prims  the mesh-level scan: the primitives Mesh.ScanPrimitives hands out for
+//	       the case's mesh; Primitive.BoundingBox(attr) / ClosestPoint(attr, q)
+//	       are logged next to the scan (nil without a mesh)
 type built struct {
 	elems []trees.Element
 	tree  *trees.OctTree
 	tris  []modeling.Tri
+	prims []modeling.Primitive
+	attr  string
+	ident bool
+	nopos bool
+}
+
+func identity(n int) []int {
+	out := make([]int, n)
+	for i := range out {
+		out[i] = i
+	}
+	return out
 }
 
 func build(c Case) (b built, err error) {
@@ -31,48 +60,131 @@ func build(c Case) (b built, err error) {
 	for i, v := range c.Verts {
 		verts[i] = v3(v)
 	}
-	var mesh modeling.Mesh
-	switch c.Kind {
-	case "point":
-		mesh = modeling.NewPointCloud(nil, map[string][]vector3.Float64{modeling.PositionAttribute: verts}, nil, nil, nil)
-	case "line":
-		mesh = modeling.NewMesh(modeling.LineStripTopology, append([]int{}, c.Idx...)).
-			SetFloat3Attribute(modeling.PositionAttribute, verts)
-	case "tri":
-		mesh = modeling.NewTriangleMesh(append([]int{}, c.Idx...)).
-			SetFloat3Attribute(modeling.PositionAttribute, verts)
-	case "box":
+	if c.Kind == "box" {
 		n := len(c.Idx) / 2
 		b.elems = make([]trees.Element, n)
 		for i := 0; i < n; i++ {
 			b.elems[i] = trees.BoundingBoxElement(geometry.NewAABBFromPoints(verts[c.Idx[2*i]], verts[c.Idx[2*i+1]]))
 		}
+		b.ident = true
 		if c.Depth < 0 {
 			b.tree = trees.NewOctree(b.elems)
 		} else {
 			b.tree = trees.NewOctreeWithDepth(b.elems, c.Depth)
 		}
 		return b, nil
+	}
+	if len(c.Decoy) != 0 && len(c.Decoy) != len(c.Verts) {
+		return b, fmt.Errorf("decoy has %d entries for %d vertices", len(c.Decoy), len(c.Verts))
+	}
+	// the attribute that carries the geometry, and the one that carries the decoy
+	b.attr = modeling.PositionAttribute
+	if c.Attr != "" {
+		b.attr = c.Attr
+	}
+	other := modeling.PositionAttribute
+	if b.attr == modeling.PositionAttribute {
+		other = RestAttribute
+	}
+	v3data := map[string][]vector3.Float64{b.attr: verts}
+	if len(c.Decoy) > 0 {
+		decoy := make([]vector3.Float64, len(c.Decoy))
+		for i, v := range c.Decoy {
+			decoy[i] = v3(v)
+		}
+		v3data[other] = decoy
+	}
+	_, hasPos := v3data[modeling.PositionAttribute]
+	b.nopos = !hasPos
+
+	order := c.Idx
+	if len(order) == 0 {
+		order = identity(len(verts))
+	}
+	b.ident = true
+	for k, i := range order {
+		if i < 0 || i >= len(verts) {
+			return b, fmt.Errorf("index %d out of range", i)
+		}
+		if i != k {
+			b.ident = false
+		}
+	}
+	unrolled := make([]vector3.Float64, len(order))
+	for k, i := range order {
+		unrolled[k] = verts[i]
+	}
+	twinData := map[string][]vector3.Float64{modeling.PositionAttribute: unrolled}
+
+	var mesh, twin modeling.Mesh
+	withData := func(m modeling.Mesh) modeling.Mesh {
+		// Position last or first must not matter; set the geometry last
+		if d, ok := v3data[other]; ok {
+			m = m.SetFloat3Attribute(other, d)
+		}
+		return m.SetFloat3Attribute(b.attr, verts)
+	}
+	switch c.Kind {
+	case "point":
+		if len(c.Idx) == 0 {
+			mesh = modeling.NewPointCloud(nil, v3data, nil, nil, nil)
+		} else {
+			mesh = withData(modeling.NewMesh(modeling.PointTopology, append([]int{}, c.Idx...)))
+		}
+		twin = modeling.NewPointCloud(nil, twinData, nil, nil, nil)
+	case "line":
+		if len(c.Idx) == 0 {
+			mesh = modeling.NewLineStripMesh(v3data, nil, nil, nil)
+		} else {
+			mesh = withData(modeling.NewMesh(modeling.LineStripTopology, append([]int{}, c.Idx...)))
+		}
+		twin = modeling.NewLineStripMesh(twinData, nil, nil, nil)
+	case "tri":
+		mesh = withData(modeling.NewTriangleMesh(append([]int{}, c.Idx...)))
+		twin = modeling.NewTriangleMesh(identity(len(unrolled))).SetFloat3Attribute(modeling.PositionAttribute, unrolled)
 	default:
 		return b, fmt.Errorf("kind %q is not an octree kind", c.Kind)
 	}
-	n := mesh.PrimitiveCount()
+
+	n := twin.PrimitiveCount()
 	b.elems = make([]trees.Element, n)
-	mesh.ScanPrimitives(func(i int, p modeling.Primitive) {
+	twin.ScanPrimitives(func(i int, p modeling.Primitive) {
 		b.elems[i] = p.Scope(modeling.PositionAttribute)
 	})
 	if c.Kind == "tri" {
 		b.tris = make([]modeling.Tri, n)
 		for i := 0; i < n; i++ {
-			b.tris[i] = mesh.Tri(i)
+			b.tris[i] = twin.Tri(i)
 		}
 	}
-	if c.Depth < 0 {
+
+	b.prims = make([]modeling.Primitive, mesh.PrimitiveCount())
+	mesh.ScanPrimitives(func(i int, p modeling.Primitive) {
+		b.prims[i] = p
+	})
+
+	switch {
+	case c.Attr == "" && c.Depth < 0:
 		b.tree = mesh.OctTree()
-	} else {
+	case c.Attr == "":
 		b.tree = mesh.OctTreeDepth(c.Depth)
+	case c.Depth < 0:
+		b.tree = mesh.OctTreeWithAttributeAndDepth(c.Attr, trees.OctreeDepthFromCount(mesh.PrimitiveCount()))
+	default:
+		b.tree = mesh.OctTreeWithAttributeAndDepth(c.Attr, c.Depth)
 	}
 	return b, nil
+}
+
+func newBatch(k string, id int) batchLine {
+	return batchLine{K: k, Case: id, Fail: []int{}, Nan: []int{}, Nana: []int{}, Mfail: []int{}}
+}
+
+func boxOf(bb geometry.AABB, exact *bool) box {
+	lo, hi := bb.Min(), bb.Max()
+	return box{
+		Lo: []int{lat(lo.X(), exact), lat(lo.Y(), exact), lat(lo.Z(), exact)},
+		Hi: []int{lat(hi.X(), exact), lat(hi.Y(), exact), lat(hi.Z(), exact)}}
 }
 
 func runOctree(enc *json.Encoder, c Case) error {
@@ -83,7 +195,7 @@ func runOctree(enc *json.Encoder, c Case) error {
 		return berr
 	}
 	tl := treeLine{K: "tree", Case: c.Id, Kind: c.Kind, Depth: c.Depth, St: st, Exact: true,
-		Eb: []box{}, Cells: []cell{}}
+		Eb: []box{}, Cells: []cell{}, Attr: c.Attr, Ident: b.ident, NoPos: b.nopos, Mst: "NONE", Meb: []box{}}
 	if st != "OK" || b.tree == nil {
 		if st == "OK" {
 			tl.St = "NIL"
@@ -95,10 +207,18 @@ func runOctree(enc *json.Encoder, c Case) error {
 	bounds := make([]geometry.AABB, n)
 	for i, e := range b.elems {
 		bounds[i] = e.BoundingBox()
-		lo, hi := bounds[i].Min(), bounds[i].Max()
-		tl.Eb = append(tl.Eb, box{
-			Lo: []int{lat(lo.X(), &tl.Exact), lat(lo.Y(), &tl.Exact), lat(lo.Z(), &tl.Exact)},
-			Hi: []int{lat(hi.X(), &tl.Exact), lat(hi.Y(), &tl.Exact), lat(hi.Z(), &tl.Exact)}})
+		tl.Eb = append(tl.Eb, boxOf(bounds[i], &tl.Exact))
+	}
+	if b.prims != nil {
+		mexact := true
+		tl.Mst = guard(func() {
+			for _, p := range b.prims {
+				tl.Meb = append(tl.Meb, boxOf(p.BoundingBox(b.attr), &mexact))
+			}
+		})
+		if tl.Mst == "OK" && !mexact {
+			tl.Mst = "INEXACT"
+		}
 	}
 	for _, vc := range b.tree.VerifCells() {
 		tl.Cells = append(tl.Cells, cell{
@@ -112,16 +232,28 @@ func runOctree(enc *json.Encoder, c Case) error {
 
 	// closest element / closest point
 	if len(c.QPts) > 0 {
-		line := batchLine{K: "closest", Case: c.Id, Fail: []int{}, Nan: []int{}, Nana: []int{}}
+		line := newBatch("closest", c.Id)
 		batch := make([]closestEntry, 0, len(c.QPts))
 		for qi, q := range c.QPts {
 			qv := v3(q)
 			bad := false
-			e := closestEntry{D2: make([]int, n), Cp: make([][]int, n), Rp: []int{0, 0, 0}}
+			e := closestEntry{D2: make([]int, n), Cp: make([][]int, n), Mcp: [][]int{}, Rp: []int{0, 0, 0}}
 			for i, el := range b.elems {
 				p := el.ClosestPoint(qv)
 				e.D2[i] = fx(p.DistanceSquared(qv), &bad)
 				e.Cp[i] = []int{fx(p.X(), &bad), fx(p.Y(), &bad), fx(p.Z(), &bad)}
+			}
+			if b.prims != nil {
+				mbad := false
+				mst := guard(func() {
+					for _, pr := range b.prims {
+						p := pr.ClosestPoint(b.attr, qv)
+						e.Mcp = append(e.Mcp, []int{fx(p.X(), &mbad), fx(p.Y(), &mbad), fx(p.Z(), &mbad)})
+					}
+				})
+				if mst != "OK" || mbad {
+					line.Mfail = append(line.Mfail, qi+1)
+				}
 			}
 			badAns := false
 			st := guard(func() {
@@ -137,7 +269,7 @@ func runOctree(enc *json.Encoder, c Case) error {
 			return err
 		}
 		// elements whose bounds contain the point
-		line = batchLine{K: "contain", Case: c.Id, Fail: []int{}, Nan: []int{}, Nana: []int{}}
+		line = newBatch("contain", c.Id)
 		cb := make([]setEntry, 0, len(c.QPts))
 		for qi, q := range c.QPts {
 			qv := v3(q)
@@ -159,7 +291,7 @@ func runOctree(enc *json.Encoder, c Case) error {
 
 	// elements whose bounds are within a radius
 	if len(c.Ranges) > 0 {
-		line := batchLine{K: "range", Case: c.Id, Fail: []int{}, Nan: []int{}, Nana: []int{}}
+		line := newBatch("range", c.Id)
 		rb := make([]setEntry, 0, len(c.Ranges))
 		for qi, q := range c.Ranges {
 			qv := v3(q[0:3])
@@ -182,7 +314,7 @@ func runOctree(enc *json.Encoder, c Case) error {
 
 	// elements whose bounds a ray crosses: list query and passive traversal
 	if len(c.Rays) > 0 {
-		line := batchLine{K: "ray", Case: c.Id, Fail: []int{}, Nan: []int{}, Nana: []int{}}
+		line := newBatch("ray", c.Id)
 		yb := make([]rayEntry, 0, len(c.Rays))
 		for qi, q := range c.Rays {
 			ray, t0, t1 := rayOf(q)
@@ -212,7 +344,7 @@ func runOctree(enc *json.Encoder, c Case) error {
 	// is caller code, as in rendering.Mesh.Hit; the element-level primitive is
 	// modeling.Tri.RayIntersects restricted to [min,max].
 	if len(c.Rays) > 0 && c.Kind == "tri" {
-		line := batchLine{K: "near", Case: c.Id, Fail: []int{}, Nan: []int{}, Nana: []int{}}
+		line := newBatch("near", c.Id)
 		nb := make([]nearEntry, 0, len(c.Rays))
 		for qi, q := range c.Rays {
 			ray, t0, t1 := rayOf(q)
